@@ -260,8 +260,51 @@ def child_main(spec_path: str, out_path: str) -> None:
             return "callable:" + getattr(v, "__qualname__", type(v).__name__)
         return "value:" + type(v).__name__
 
+    SHARED: dict = {}
+    shared_names = set()
+    for prog_ in spec["threads"]:
+        for op_ in prog_:
+            if op_[0] == "sh":
+                shared_names.update(x for x in (op_[3], op_[4]) if x)
+    if shared_names:
+        from sqlglot.dialects.dialect import Dialect as _Dialect_cls
+
+        for nm_ in sorted(shared_names):  # resolved ONCE, in the main thread, before any worker starts
+            SHARED[nm_] = _Dialect_cls.get_or_raise(nm_)
+
+    def sh_once(what, sql, d1, d2, opt):
+        from sqlglot.errors import ErrorLevel
+
+        kw = {"": {}, "pretty": {"pretty": True}, "identify": {"identify": True},
+              "raise": {"unsupported_level": ErrorLevel.RAISE}, "nocomments": {"comments": False}}[opt]
+        r, w = SHARED[d1], SHARED[d2 or d1]
+        try:
+            if what == "transpile":
+                return "sql:" + repr(sqlglot.transpile(sql, read=r, write=w, **kw))
+            if what == "sql":
+                return "sql:" + sqlglot.parse_one(sql, read=r).sql(dialect=w, **kw)
+            if what == "generate":
+                return "sql:" + w.generate(r.parse(sql)[0], **kw)
+            if what == "optimize":
+                return "opt:" + O.optimize(sqlglot.parse_one(sql, read=r), dialect=r).sql(dialect=w, **kw)
+            if what == "parse":
+                return "tree:" + repr(r.parse(sql))
+            if what == "tokenize":
+                return "tokens:" + repr([(t.token_type.name, t.text) for t in r.tokenize(sql)])
+        except Exception as e:  # noqa
+            return "raise:" + type(e).__name__ + ":" + str(e)[:300]
+        raise ValueError("unknown shared op " + what)
+
     def run_op(op, local):
         kind = op[0]
+        if kind == "sh":
+            _, what, sql, d1, d2, opt, reps = op
+            first = sh_once(what, sql, d1, d2, opt)
+            for _ in range(max(0, reps - 1)):
+                again = sh_once(what, sql, d1, d2, opt)
+                if again != first:
+                    return "unstable:" + first + " || " + again
+            return first
         if kind == "attr":
             pkg = D if op[1] == "dialects" else O
             v = getattr(pkg, op[2])
@@ -413,6 +456,10 @@ THEOREMS = [P + n for n in (
     "fast_path_returns_partial_module",
     "publish_early_exposes_partial_table",
     "full_demo_complete",
+    "dialect_workers_fresh_per_call",
+    "fresh_workers_results_prefix",
+    "fresh_workers_schedule_independent",
+    "cached_worker_breaks_results",
 )]
 
 PYTHON = sys.executable
@@ -822,6 +869,69 @@ def source_shape(chk: Check) -> dict:
     return shape
 
 
+# ---- worker objects: Dialect methods that hand out Tokenizer / Parser / Generator instances ------------------------
+WORKER_METHODS = ("tokenizer", "jsonpath_tokenizer", "parser", "generator")
+WORKER_TYPES = ("Tokenizer", "JSONPathTokenizer", "Parser", "Generator", "BaseParser")
+
+
+def worker_factories(chk: Check) -> list:
+    """[(Class.method, fresh)] for every method of a top-level class in sqlglot/dialects/*.py that returns a worker:
+    fresh = every `return` is a direct `self.<x>_class(...)` / `super().<m>(...)` call and the method does not touch an
+    instance attribute cache; plus (Class.method:stores-worker, False) for any method that keeps a worker on `self`"""
+    out = []
+    ddir = os.path.join(REPO, "sqlglot", "dialects")
+
+    def self_attr(node):
+        return isinstance(node, ast.Attribute) and isinstance(node.value, ast.Name) and node.value.id == "self"
+
+    def is_ctor_call(v, meth):
+        if not isinstance(v, ast.Call):
+            return False
+        f = v.func
+        if self_attr(f) and f.attr.endswith("_class"):
+            return True
+        if isinstance(f, ast.Attribute) and f.attr == meth and isinstance(f.value, ast.Call) \
+                and isinstance(f.value.func, ast.Name) and f.value.func.id == "super":
+            return True
+        return False
+
+    def makes_worker(v):
+        return isinstance(v, ast.Call) and ((self_attr(v.func) and (v.func.attr.endswith("_class") or v.func.attr in WORKER_METHODS)))
+
+    for fn_ in sorted(os.listdir(ddir)):
+        if not fn_.endswith(".py") or fn_ == "__init__.py":
+            continue
+        tree = ast.parse(open(os.path.join(ddir, fn_), encoding="utf-8").read())
+        for cls in [n for n in tree.body if isinstance(n, ast.ClassDef)]:
+            for m in [n for n in cls.body if isinstance(n, (ast.FunctionDef, ast.AsyncFunctionDef))]:
+                ann = ast.unparse(m.returns) if m.returns is not None else ""
+                is_factory = m.name in WORKER_METHODS or ann.split(".")[-1].strip("'\"") in WORKER_TYPES
+                stores = [n for n in ast.walk(m) if isinstance(n, (ast.Assign, ast.AnnAssign, ast.AugAssign))
+                          and any(self_attr(tg) for tg in (n.targets if isinstance(n, ast.Assign) else [n.target]))]
+                if is_factory:
+                    rets = [n for n in ast.walk(m) if isinstance(n, ast.Return)]
+                    setattrs = [n for n in ast.walk(m) if isinstance(n, ast.Call) and isinstance(n.func, ast.Name) and n.func.id in ("setattr", "getattr")]
+                    dunder = [n for n in ast.walk(m) if isinstance(n, ast.Attribute) and n.attr == "__dict__"]
+                    priv_reads = [n for n in ast.walk(m) if self_attr(n) and isinstance(n.ctx, ast.Load) and n.attr.startswith("_")
+                                  and not n.attr.endswith("_class")]
+                    nested = [n for n in ast.walk(m) if n is not m and isinstance(n, (ast.FunctionDef, ast.Lambda))]
+                    fresh = bool(rets) and all(is_ctor_call(r.value, m.name) for r in rets) and not stores and not setattrs \
+                        and not dunder and not priv_reads and not nested
+                    out.append((f"{cls.name}.{m.name}", fresh))
+                else:
+                    for st in stores:
+                        if st.value is not None and makes_worker(st.value):
+                            out.append((f"{cls.name}.{m.name}:stores-worker", False))
+    found = {nm for nm, _ in out}
+    for meth in WORKER_METHODS:
+        if f"Dialect.{meth}" not in found:
+            chk.broken.append({"kind": "translator", "what": f"C19 translator: structure changed: Dialect.{meth} not found"})
+            out.append((f"Dialect.{meth}:missing", False))
+    out = sorted(set(out))
+    chk.cov["worker_factories"] = {nm: ok for nm, ok in out}
+    return out
+
+
 def translate(chk: Check) -> str:
     import sqlglot.dialects as D
     import sqlglot.optimizer as O
@@ -832,6 +942,7 @@ def translate(chk: Check) -> str:
     chk.cov["lock_facts"] = {"dialects": fd, "optimizer": fo, "try_load": tl}
     re = scan_reentries(chk)
     shp = source_shape(chk)
+    wf = worker_factories(chk)
     chk.cov["lock_order_scan"] = {"modules_scanned": len(re["scanned"]), "reentry_sites": [f"{m}:{ln}: {w}" for m, ln, w in re["sites"]]}
     chk.cov["_reentry_modules"] = sorted({m for m, _, _ in re["sites"]})
     if len(re["scanned"]) < 60:
@@ -863,6 +974,10 @@ def translate(chk: Check) -> str:
         "def reentrySites : List String := [" + ", ".join(lean_str(f"{m}:{ln}: {w}") for m, ln, w in re["sites"]) + "]\n"
         "/-- orderings the full model is instantiated with (ast of dialect.py, the two __init__.py, generator.py) -/\n"
         "def shape : SourceShape := { " + ", ".join(f"{k} := {lean_bool(v)}" for k, v in shp.items()) + " }\n"
+        "/-- object lifetime: methods of the dialect classes that return a Tokenizer / Parser / Generator, and whether each\n"
+        "    constructs it in the call (no instance-attribute cache) -/\n"
+        "def workerFactories : List (String × Bool) := [" + ", ".join(f"({lean_str(nm)}, {lean_bool(ok)})" for nm, ok in wf) + "]\n"
+        "def workersFreshPerCall : Bool := workerFactories.all (·.2) && decide (4 ≤ workerFactories.length)\n"
         "end SqlglotModel.Generated.C19\n"
     )
 
@@ -1011,6 +1126,57 @@ def gen_spec(chk: Check, kind: str, gen_unsafe: set) -> dict:
     return spec
 
 
+def _derived(n: int, tag: int) -> str:
+    # derived tables that only name their columns: the generator invents the table aliases _t0, _t1, ... from its per-run counter
+    return "SELECT * FROM " + " CROSS JOIN ".join(f"(SELECT {tag * 100 + i} AS v) AS (c{tag}_{i})" for i in range(n))
+
+
+STATEFUL_SQLS = [
+    # unsupported-message collection (per-run list on the generator)
+    "SELECT DISTINCT ON (a) a, b FROM t QUALIFY ROW_NUMBER() OVER (PARTITION BY b ORDER BY c) = 1",
+    "SELECT x ILIKE ANY (ARRAY['a', 'b']) FROM t TABLESAMPLE BERNOULLI (10) WHERE JSON_EXTRACT(j, '$..k') IS NOT NULL",
+    # pretty printing / comment sentinels
+    "SELECT /* c1 */ a, (SELECT MAX(b) /* c2 */ FROM (SELECT b FROM u WHERE b > 1) AS q) AS m FROM t /* c3 */ WHERE a IN (SELECT a FROM v)",
+    # placeholders / parameters
+    "SELECT * FROM t WHERE a = ? AND b = ? AND c = :p1 AND d = @p2",
+    # name sequences in the optimizer
+    "SELECT a FROM t WHERE EXISTS (SELECT 1 FROM u WHERE u.a = t.a) AND b IN (SELECT b FROM v WHERE v.c = t.c)",
+]
+
+
+def shared_spec(chk: Check) -> dict:
+    """N threads work through SHARED Dialect instances (resolved once in the main thread, passed as read=/write=/dialect=):
+    every call must own its Tokenizer / Parser / Generator"""
+    rng = chk.rng
+    names, by_attr = dialect_tables()
+    low = [by_attr[nm] for nm in names]
+    pool = ["postgres"] + rng.sample([d for d in low if d != "postgres"], 3)
+    n = rng.choice([4, 6, 6, 8])
+    hot = rng.choice(pool[:2])  # the instance most calls write through
+    reps = rng.choice([12, 20, 30])
+    threads = []
+    for w in range(n):
+        prog = []
+        for j in range(rng.randint(3, 5)):
+            r = rng.random()
+            write = hot if rng.random() < 0.8 else rng.choice(pool)
+            read = rng.choice([hot, "postgres", rng.choice(pool)])
+            opt = "" if rng.random() < 0.65 else rng.choice(["pretty", "identify", "raise", "nocomments"])
+            if r < 0.55:
+                sql = _derived(5 + (w + j) % 6, w)
+                what = rng.choice(["transpile", "sql", "generate"])
+                prog.append(["sh", what, sql, "postgres", write, opt, reps])
+            elif r < 0.85:
+                prog.append(["sh", rng.choice(["transpile", "sql", "generate"]), rng.choice(STATEFUL_SQLS + SQLS), read, write, opt, reps])
+            elif r < 0.93:
+                prog.append(["sh", "optimize", rng.choice(STATEFUL_SQLS[-1:] + SQLS[:3]), read, write, "", max(3, reps // 4)])
+            else:
+                prog.append(["sh", rng.choice(["parse", "tokenize"]), rng.choice(STATEFUL_SQLS + SQLS), read, "", "", reps])
+        threads.append(prog)
+    return {"mode": "S", "probe": False, "switch": rng.choice([1e-6, 1e-6, 1e-5]), "hashseed": rng.randrange(1000),
+            "timeout": 40, "threads": threads}
+
+
 def route_targets() -> list:
     """(package tag, attribute, module) for every module that has both an attribute route and a string/import route"""
     names, by_attr = dialect_tables()
@@ -1052,6 +1218,15 @@ class _Abort(Exception):
     """a sequential (one thread) process already violates the property; reported, nothing more to do"""
 
 
+def lock_wait(out: dict) -> bool:
+    """is the stuck thread waiting for a lock (as opposed to merely being slow)?"""
+    for v in out.get("hang_info", {}).values():
+        st = v.get("stack", [])
+        if st and (st[-1].endswith(":acquire") or st[-1].endswith(":__enter__") or st[-1].endswith(":wait")):
+            return True
+    return False
+
+
 def sequential_failure(chk: Check, out: dict, what: str) -> None:
     if out.get("crash"):
         raise HarnessError(f"C19 {what} process failed: {str(out.get('crash'))[:500]}")
@@ -1090,14 +1265,24 @@ class Baseline:
                 todo.append(op)
         if not todo:
             return
-        out = self.runner.run({"mode": "baseline", "probe": True, "threads": [todo], "switch": 0.005, "timeout": 45})
-        if out.get("hang") and self.chk is not None:
-            sequential_failure(self.chk, out, "baseline")
-        if out.get("crash") or out.get("hang") or len(out["results"][0]) != len(todo):
-            raise HarnessError(f"C19 baseline process failed: {out.get('crash') or out.get('hang_info')}")
-        for op, r in zip(todo, out["results"][0]):
-            self.cache[(self.key(op), False)] = r
-            self.cache[(self.key(op), True)] = r
+        # one repetition is enough for the sequential answer of a repeated shared-instance call
+        run_ops = [op[:6] + [1] if op[0] == "sh" else op for op in todo]
+        size = 500
+        chunks = [(todo[i:i + size], run_ops[i:i + size]) for i in range(0, len(todo), size)]
+
+        def one(ch):
+            return self.runner.run({"mode": "baseline", "probe": True, "threads": [ch[1]], "switch": 0.005, "timeout": 90})
+
+        with concurrent.futures.ThreadPoolExecutor(max_workers=min(6, len(chunks))) as ex:
+            outs = list(ex.map(one, chunks))
+        for (orig, _), out in zip(chunks, outs):
+            if out.get("hang") and self.chk is not None and lock_wait(out):
+                sequential_failure(self.chk, out, "baseline")
+            if out.get("crash") or out.get("hang") or len(out["results"][0]) != len(orig):
+                raise HarnessError(f"C19 baseline process failed or too slow: {out.get('crash') or out.get('hang_info')}")
+            for op, r in zip(orig, out["results"][0]):
+                self.cache[(self.key(op), False)] = r
+                self.cache[(self.key(op), True)] = r
 
     def get(self, op):
         return self.cache[(self.key(op), False)]
@@ -1105,7 +1290,7 @@ class Baseline:
     def alone(self, op, probe: bool) -> str:
         """the call run alone in its own fresh process"""
         out = self.runner.run({"mode": "alone", "probe": probe, "threads": [[op]], "switch": 0.005, "timeout": 60})
-        if out.get("hang") and self.chk is not None:
+        if out.get("hang") and self.chk is not None and lock_wait(out):
             sequential_failure(self.chk, out, "alone")
         if out.get("crash") or out.get("hang") or not out["results"][0]:
             raise HarnessError(f"C19 alone-process failed: {out.get('crash') or out.get('hang_info')}")
@@ -1120,7 +1305,7 @@ def gen_unsafe_names(runner: Runner, chk: Check | None = None) -> set:
     for nm in names:
         prog += [["attr", "dialects", nm], ["gen", nm]]
     out = runner.run({"mode": "baseline", "probe": False, "threads": [prog], "switch": 0.005, "timeout": 60})
-    if out.get("hang") and chk is not None:
+    if out.get("hang") and chk is not None and lock_wait(out):
         sequential_failure(chk, out, "gen-probe")
     if out.get("crash") or out.get("hang"):
         raise HarnessError(f"C19 gen-probe process failed: {out.get('crash') or out.get('hang_info')}")
@@ -1354,11 +1539,20 @@ def check_run(chk: Check, out: dict, base: Baseline, runner: Runner) -> list:
             early = early_registry_read(out, loading, t, j, op)
             if early:
                 kind = "early-registry-read:" + kind
-            bad.append((f"{kind}:{op[0]}:{exc}:{where}",
+            key = f"{kind}:{op[0]}:{exc}:{where}"
+            if op[0] == "sh":
+                key = f"shared-instance:{'unstable' if r.startswith('unstable:') else kind}:{op[1]}:{op[5] or 'noopt'}"
+            bad.append((key,
                         f"thread {t} call #{j} {op} gave {r[:300]!r}; run alone it gives {alone[:300]!r}",
                         {"thread": t, "index": j, "op": op, "got": r[:2000], "alone": alone[:2000]}))
+    failed_imports = {a for (_, k, a) in out.get("events", []) if k == "execfail"}
     for m, c in out["exec_counts"].items():
         if c > 1:
+            if m in failed_imports:
+                # the first import raised (reported through the call that hit it); importing again afterwards is the
+                # interpreter's normal retry, not a second concurrent execution
+                chk.count("reimport-after-failed-import")
+                continue
             grp = ".".join(m.split(".")[:2])
             bad.append((f"double-exec:{grp}", f"the body of module {m} was executed {c} times", {"module": m, "count": c}))
     for c, fps in out["fills"].items():
@@ -1539,7 +1733,8 @@ def run(chk: Check) -> None:
             pick = sorted(targets, key=lambda tg: tg[2] not in flagged)
         routes = [route_spec(*tg) for tg in pick]
         chk.cov["route_runs"] = {"targets": len(targets), "run": len(routes)}
-        specs = corpus + routes + specs
+        shared = [shared_spec(chk) for _ in range(chk.pick(6, 40) * boost)]
+        specs = corpus + routes + shared + specs
         base.ensure(list(all_ops(specs)), True)
         t0 = time.time()
         order_dependence(chk, runner, base, specs, workers)
